@@ -20,6 +20,7 @@ Sstore(s, v) == [op |-> "sstore", s |-> s, v |-> v]
 Log(t)       == [op |-> "log", t |-> t]
 Sub(ops)     == [op |-> "sub", ops |-> ops]
 Op(name)     == [op |-> name]
+Env(k, s)    == [op |-> "env", k |-> k, s |-> s]
 
 Progs == {
   <<Sstore(1, 1)>>,
@@ -32,11 +33,16 @@ Progs == {
   <<Log(<<>>), Log(<<1, 2, 3, 4>>), Sstore(2, 0)>>,
   <<Sstore(3, 2), Op("invalid")>>,
   <<Sstore(1, 1), Sstore(1, 1)>>,
+  <<Env(1, 4), Env(8, 3)>>,
+  <<Env(5, 2), Env(2, 1), Log(<<3>>)>>,
   <<>> }
 
 Pick(seq) == seq[RandomElement(1..Len(seq))]
 
 ReadProgs == {
+  <<Env(1, 4), Op("ret") @@ [s |-> 4]>>,
+  <<Env(5, 4), Env(3, 1), Op("ret") @@ [s |-> 4]>>,
+  <<Env(8, 2), Env(4, 3), Env(6, 1), Env(7, 4), Op("ret") @@ [s |-> 2]>>,
   <<[op |-> "number", s |-> 4], Op("ret") @@ [s |-> 4]>>,
   <<[op |-> "number", s |-> 4], Sstore(1, 6)>>,
   <<Sstore(1, 9), Op("ret") @@ [s |-> 1]>>,
